@@ -21,7 +21,11 @@ CONSTANTS MaxAttempts,   \* client attempts (each opens a fresh socket)
           Gap,           \* the 3 s rule in ticks: interleaved iff cTx0 - prev.cTx <= Gap
           ItemCap,       \* pairs the server keeps for this client
           ReusePorts,    \* TRUE: a later attempt may get the socket id of an earlier one
-          StrictGap      \* TRUE: "<" (SCION client), FALSE: "<=" (IP client)
+          StrictGap,     \* TRUE: "<" (SCION client), FALSE: "<=" (IP client)
+          FwdStamps      \* what the client's end host may attach to a delivered response:
+                         \* {"none"} for IP; for SCION the end-host forwarder may append its
+                         \* own receive timestamp (end-to-end option 253): "none" | "inside" |
+                         \* "before" | "after" | "bad" (see ClientRecv)
 
 Nil == [v |-> -1000, ex |-> 0, h |-> 0, role |-> "nil"]
 TS(v, ex, h, role) == [v |-> v, ex |-> ex, h |-> h, role |-> role]
@@ -153,10 +157,39 @@ ThetaChange ==
 (***************************************************************************)
 Close(sock) == {m \in net : ~(m.kind = "resp" /\ m.sock = sock)}
 
-ClientRecv(m) ==
+(***************************************************************************)
+(* The response reaches the client's end host.  Over SCION the end-host    *)
+(* forwarder (dispatcher) may append a control-message-shaped timestamp    *)
+(* (end-to-end option 253) before handing the datagram to the client's     *)
+(* socket; what it attached is the environment's choice fw:                *)
+(*   "none"   no option (always so over IP)                                *)
+(*   "inside" its genuine receive time of this response: taken after the   *)
+(*            request left and before the socket got the datagram          *)
+(*   "before" a value from before the request's transmission (stale or     *)
+(*            foreign stamp, stepped forwarder clock, forged option)       *)
+(*   "after"  a value later than the socket's own receive time             *)
+(*   "bad"    bytes that are no timestamp control message                  *)
+(* The forwarder handles the datagram at now + 1, the socket's kernel      *)
+(* receive timestamp is taken at now + 2.  The client uses the stamp as    *)
+(* its receive time only if it lies inside the exchange (client_scion.go:  *)
+(* !cRxTime0.Before(cTxTime1) && !cRxTime0.After(cRxTime)), otherwise the  *)
+(* socket's; a stamp that is not this exchange's receive time carries the  *)
+(* ghost role "fwd" and exchange 0.                                        *)
+(***************************************************************************)
+FwdStamp(fw, sock) ==
+  CASE fw = "inside" -> TS(sock.v - 1, pend.ex, 0, "cRx")
+    [] fw = "before" -> TS(pend.cTx1.v - 1, 0, 0, "fwd")
+    [] fw = "after"  -> TS(sock.v + 1, 0, 0, "fwd")
+    [] OTHER         -> Nil                      \* "none", "bad": nothing to read
+RxTime(fw, sock) ==
+  LET s == FwdStamp(fw, sock)
+  IN IF s # Nil /\ s.v >= pend.cTx1.v /\ s.v <= sock.v THEN s ELSE sock
+
+ClientRecv(m, fw) ==
   /\ pend # NoReq /\ m \in net /\ m.kind = "resp" /\ m.sock = pend.sock
-  /\ now' = now + 1
-  /\ LET cRx  == TS(now + 1, pend.ex, 0, "cRx")
+  /\ fw \in FwdStamps
+  /\ now' = now + 2
+  /\ LET cRx  == RxTime(fw, TS(now + 2, pend.ex, 0, "cRx"))
          w    == m.wire
          ilr  == pend.il /\ w.org.v = pend.wire.rx.v
          bad  == ~ilr /\ w.org.v # pend.wire.tx.v
@@ -198,7 +231,7 @@ ClientTimeout ==
 
 Next ==
   \/ ClientSend \/ Idle \/ ThetaChange \/ ClientTimeout
-  \/ \E m \in net : NetDrop(m) \/ NetDup(m) \/ ServerRecv(m) \/ ClientRecv(m)
+  \/ \E m \in net : NetDrop(m) \/ NetDup(m) \/ ServerRecv(m) \/ (\E fw \in FwdStamps : ClientRecv(m, fw))
   \/ \E p \in spend, lost \in BOOLEAN : ServerTx(p, lost)
 
 Spec == Init /\ [][Next]_vars
